@@ -7,7 +7,22 @@
                 No hypothesis.
   x/subaccount  `subInv_reachable`: any bank, any of the three patch flags, any history of `Sge.Subaccount.step`,
                 whatever the other modules do (the `…Ext` parameters are arbitrary).  No hypothesis.
-  x/reward      see the second half of this file.
+  x/reward      The genesis model works on `RewardStores` (the seven KV stores in key order, sent by the harness); the
+                histories are those of the x/reward model `Sge.Reward` (C12).  `grm_stores d s` is the projection: every
+                collection of the model state `s` as its prefix scan, digests `d` arbitrary.
+                FINDING `rewardInv_reachable_counterexample`: `rewardInv` is FALSE in a reachable state.  `CreatePromoter`
+                checks only that the promoter uid is new; an address that already is a promoter address can create a
+                second promoter, `SetPromoterByAddress` overwrites its record, the by-category index entries of earlier
+                rewards stay under the old promoter uid, and InitGenesis (also the patched one) re-files them under the
+                new uid: import (export σ) ≠ σ.
+                `rewardInv_partial`          every history: all conjuncts except "by-category index is filed under the
+                                             promoter of the reward's campaign"
+                `rewardInv_reachable`        every history in which no address creates a promoter while it already is a
+                                             promoter address (`grm_freshRun`; e.g. pairwise different creators)
+                `c16_import_export_reward_reachable`          round trip under that hypothesis
+                `c16_import_export_reward_partial_reachable`  every history: no panic, everything comes back, the
+                                             by-category index re-filed under the current promoter uids
+                `c16_validate_export_reward_reachable`        every history, both variants: the export validates
 -/
 import SgeProofs.Properties.C16
 import SgeProofs.Lemmas.GenesisReachMods
@@ -211,6 +226,90 @@ theorem c16_validate_export_reward_reachable (gfixed : Bool) (d : grm_Digests) (
   exact grm_validate_export_reward gfixed _ hc hr h3 h4
 
 -- ---------------------------------------------------------------------------------------------
+-- what export + import does in EVERY reachable state (no hypothesis on the promoters)
+
+/-- a by-category entry as the genesis import files it: under the promoter uid the stores give for its reward -/
+def grm_refile (st : RewardStores) (x : ByCat) : ByCat :=
+  { x with promoterUid := (promoterOfReward st x.uid).getD x.promoterUid }
+
+theorem grm_foldl_importByCat (l : List ByCat) (acc : RewardStores) (pu : ByCat → Nat)
+    (h : ∀ x ∈ l, ∀ bc, promoterOfReward { acc with byCategory := bc } x.uid = some (pu x)) :
+    (l.map (fun x => (x.receiver, x.category, x.uid))).foldl importByCat (some acc) =
+      some { acc with byCategory := setAll ByCat.key (l.map (fun x => { x with promoterUid := pu x })) acc.byCategory } := by
+  induction l generalizing acc with
+  | nil => simp [setAll]
+  | cons x xs ih =>
+    simp only [List.map_cons, List.foldl_cons]
+    have hx' : promoterOfReward acc x.uid = some (pu x) := h x (List.mem_cons_self ..) acc.byCategory
+    have step : importByCat (some acc) (x.receiver, x.category, x.uid) =
+        some { acc with byCategory := Core.upsert ByCat.key { x with promoterUid := pu x } acc.byCategory } := by
+      simp [importByCat, hx']
+    rw [step, ih]
+    · simp [setAll]
+    · intro y hy bc
+      exact h y (List.mem_cons_of_mem _ hy) bc
+
+/-- C16 reward, patched genesis code, without the by-category conjunct of `rewardInv`: the import does not panic and
+    every collection comes back, except that the by-category index is re-filed (`grm_refile`). -/
+theorem grm_import_export_reward_refile (st : RewardStores)
+    (hp : sortedB (fun (x : Nat × Nat) => [x.1]) st.promoters = true) (ha : sortedB (fun (x : Nat × Nat) => [x.1]) st.byAddress = true)
+    (hc : sortedB (fun (c : Campaign) => [c.uid]) st.campaigns = true) (hr : sortedB (fun (r : Reward) => [r.uid]) st.rewards = true)
+    (hbm : sortedB (fun (x : Nat × Nat) => [x.1, x.2]) st.byCampaign = true) (hst : st.grantStats = rebuiltStats st)
+    (hsome : ∀ x ∈ st.byCategory, (promoterOfReward st x.uid).isSome = true) :
+    importReward true (exportReward true st) =
+      some { st with byCategory := setAll ByCat.key (st.byCategory.map (grm_refile st)) [] } := by
+  rw [sortedB_iff] at hp ha hc hr hbm
+  unfold importReward exportReward
+  simp only [↓reduceIte]
+  rw [setAll_sorted _ st.promoters hp, setAll_sorted _ st.byAddress ha, setAll_sorted _ st.campaigns hc,
+    setAll_sorted _ st.byCampaign hbm]
+  have hf := foldl_importRewardRec_frame true st.rewards
+    { emptyReward with promoters := st.promoters, byAddress := st.byAddress, campaigns := st.campaigns }
+  simp only at hf
+  obtain ⟨f1, f2, f3, f4, f5, f6⟩ := hf
+  have f7 := foldl_importRewardRec_stats_true st.rewards
+    { emptyReward with promoters := st.promoters, byAddress := st.byAddress, campaigns := st.campaigns }
+    { emptyReward with campaigns := st.campaigns } rfl rfl
+  have f1 := f1.trans (setAll_sorted (fun (x : Reward) => [x.uid]) st.rewards hr)
+  have hst2 : st.rewards.foldl (importRewardRec true)
+      { emptyReward with promoters := st.promoters, byAddress := st.byAddress, campaigns := st.campaigns } =
+      { st with byCategory := [], byCampaign := [] } := by
+    generalize st.rewards.foldl (importRewardRec true)
+      { emptyReward with promoters := st.promoters, byAddress := st.byAddress, campaigns := st.campaigns } = r at *
+    cases r
+    simp only [emptyReward] at *
+    simp only [RewardStores.mk.injEq]
+    refine ⟨f3, f4, f2, f1, f5, f6, ?_⟩
+    rw [f7, hst]
+    rfl
+  rw [hst2]
+  rw [grm_foldl_importByCat st.byCategory _ (fun x => (promoterOfReward st x.uid).getD x.promoterUid)]
+  · rfl
+  · intro x hx bc
+    have e : promoterOfReward { { st with byCategory := [], byCampaign := [] } with byCategory := bc } x.uid =
+        promoterOfReward st x.uid := promoterOfReward_congr _ _ rfl rfl rfl _
+    rw [e]
+    cases hq : promoterOfReward st x.uid with
+    | none => have := hsome x hx; rw [hq] at this; cases this
+    | some u => rfl
+
+/-- C16 reward, patched genesis code, EVERY reachable state: InitGenesis of the export does not panic and restores
+    promoters, promoters by address, campaigns, rewards, the by-campaign index and the grant counters exactly; the
+    by-category index comes back with every entry filed under the promoter uid that the promoter-by-address store NOW
+    has for the promoter address of the reward's campaign (equal to the stored one unless an address created a second
+    promoter: `rewardInv_reachable_counterexample`). -/
+theorem c16_import_export_reward_partial_reachable (d : grm_Digests) (fixed codecFixed : Bool) (bal : Nat → Int)
+    (ops : List Sge.Reward.Op) :
+    let st := grm_stores d (Sge.Reward.run (grm_rewardInit fixed codecFixed bal) ops)
+    importReward true (exportReward true st) =
+      some { st with byCategory := setAll ByCat.key (st.byCategory.map (grm_refile st)) [] } := by
+  have hI := Sge.Reward.grm_rwI_run ops (Sge.Reward.grm_rwI_init fixed codecFixed bal)
+  have hS : Sge.Reward.grm_CatSome (Sge.Reward.run (grm_rewardInit fixed codecFixed bal) ops) :=
+    Sge.Reward.grm_catSome_run ops (by intro y hy; cases hy)
+  obtain ⟨hp, ha, hc, hr, _, hbm, hst⟩ := grm_rewardInv_partial_of d _ hI
+  exact grm_import_export_reward_refile _ hp ha hc hr hbm hst (grm_cat_some d _ hI hS)
+
+-- ---------------------------------------------------------------------------------------------
 -- the counter-example: one address creates two promoters
 
 def grm_bal : Nat → Int := fun a => if a < 12 then 5000 else 0
@@ -260,6 +359,11 @@ theorem rewardInv_reachable_counterexample :
     importReward true (exportReward true grm_rewardCexStores) ≠ some grm_rewardCexStores ∧
     validateReward (exportReward true grm_rewardCexStores) = 0 := by
   decide +kernel
+
+/-- what the unconditional statement says about the counter-example state: the one entry is re-filed from 7 to 8 -/
+example : importReward true (exportReward true grm_rewardCexStores) =
+    some { grm_rewardCexStores with byCategory := [{ promoterUid := 8, receiver := 3, category := 1, uid := 30 }] } :=
+  (c16_import_export_reward_partial_reachable grm_dg false false grm_bal grm_rewardCexOps).trans (by decide +kernel)
 
 /-- the same holds for the other three combinations of the model's patch flags (the defect is not touched by them) -/
 theorem rewardInv_reachable_counterexample_patched :
